@@ -16,10 +16,6 @@ VARIABLES tid, l, st
 tvars == <<tid, l, st>>
 Empty == [store |-> <<>>, tree |-> EmptyTree, seen |-> <<>>, allseen |-> FALSE]
 
-SameSet(obs, exp) == /\ Len(obs) = Cardinality(exp)
-                     /\ \A j \in 1..Len(obs) : <<obs[j][1], obs[j][2]>> \in exp
-                     /\ \A e \in exp : \E j \in 1..Len(obs) : obs[j][1] = e[1] /\ obs[j][2] = e[2]
-
 \* clause that rejects event ev in state s, or "ok"
 Clause(ev, s) ==
   CASE ev.op \in {"insert", "clear"} -> "ok"
@@ -27,11 +23,18 @@ Clause(ev, s) ==
          LET exp == IF Judge = "ref" THEN CheckRef(s.store, ev.lk) ELSE CheckMech(s.seen, s.allseen, ev.lk)
          IN IF ev.res = exp THEN "ok" ELSE IF ev.res THEN "check.false-positive" ELSE "check.false-negative"
     [] ev.op = "retrieve" ->
+         \* every stored entry that agrees with the lookup, once: two entries may merge with the lookup to the same
+         \* (binding, output) pair, then that pair is due twice
          LET exp == IF Judge = "ref" THEN RetrieveRef(s.store, ev.lk) ELSE RetrieveMech(s.tree, ev.lk)
-         IN IF SameSet(ev.res, exp) THEN "ok"
-            ELSE IF \E k \in 1..Len(ev.res) : <<ev.res[k][1], ev.res[k][2]>> \notin exp THEN "retrieve.extra"
-            ELSE IF Len(ev.res) > Cardinality(exp) THEN "retrieve.duplicate"
-            ELSE "retrieve.missing"
+             Due(p) == IF Judge = "ref"
+                       THEN Cardinality({i \in 1..Len(s.store) : Agree(s.store[i].b, ev.lk)
+                                           /\ <<MergeB(ev.lk, s.store[i].b), s.store[i].o>> = p})
+                       ELSE 1
+             Got(p) == Cardinality({j \in 1..Len(ev.res) : <<ev.res[j][1], ev.res[j][2]>> = p})
+         IN IF \E k \in 1..Len(ev.res) : <<ev.res[k][1], ev.res[k][2]>> \notin exp THEN "retrieve.extra"
+            ELSE IF \E p \in exp : Got(p) > Due(p) THEN "retrieve.duplicate"
+            ELSE IF \E p \in exp : Got(p) < Due(p) THEN "retrieve.missing"
+            ELSE "ok"
 
 Apply(ev, s) ==
   CASE ev.op = "insert" -> [store |-> StorePut(s.store, ev.b, ev.o), tree |-> TreePut(s.tree, ev.b, ev.o),
